@@ -250,6 +250,36 @@ func writeDoc(spec docSpec) (w *written, err error) {
 	if err = putStream("stream", obj.Dict{"Desc": randString(rnd), "Arr": obj.Array{randString(rnd)}}, body(lens[rnd.Intn(len(lens))])); err != nil {
 		return w, err
 	}
+	// an object Put while a stream is open: the Writer queues it and emits
+	// the stream dictionary later (at 1024 bytes of data or at Close), so the
+	// dictionary's strings are written after the Put call
+	{
+		sref, qref := out.Alloc(), out.Alloc()
+		dict := obj.Dict{"Desc": randString(rnd), "Arr": obj.Array{randString(rnd), obj.Dict{"K": randString(rnd)}}}
+		first, second := body([]int{0, 1, 100, 1000}[rnd.Intn(4)]), body([]int{0, 16, 500, 2000}[rnd.Intn(4)])
+		queued := obj.Array{randString(rnd), obj.Dict{"K": randString(rnd)}}
+		w.items = append(w.items, item{where: "stream-with-queued-put", ref: sref, isStream: true, dict: dict,
+			body: append(append([]byte(nil), first...), second...), direct: true})
+		w.items = append(w.items, item{where: "queued-put", ref: qref, want: queued, direct: true})
+		w.nStrings += countStrings(dict) + countStrings(queued)
+		w.nStreams++
+		s, err := out.OpenStream(sref, shared.ToPDF(dict).(pdf.Dict))
+		if err != nil {
+			return w, err
+		}
+		if _, err = s.Write(first); err != nil {
+			return w, err
+		}
+		if err = out.Put(qref, shared.ToPDF(queued)); err != nil {
+			return w, err
+		}
+		if _, err = s.Write(second); err != nil {
+			return w, err
+		}
+		if err = s.Close(); err != nil {
+			return w, err
+		}
+	}
 	// compressed objects
 	c1, c2, c3 := out.Alloc(), out.Alloc(), out.Alloc()
 	cv := []obj.Value{
